@@ -2,6 +2,7 @@ package schist
 
 import (
 	"fmt"
+	"strings"
 
 	"0chain.net/chaincore/transaction"
 	"0chain.net/core/config"
@@ -93,6 +94,10 @@ func basicOps() []OpDef {
 				c.Spec.To = "not-a-hash"
 				c.Mut = "bad-recipient"
 			}
+			if r.Chance(0.06) {
+				c.Spec.To = strings.ToUpper(to.ID[:8]) + to.ID[8:] // another spelling of the same hex id
+				c.Mut = "recipient-hex-case"
+			}
 			return c
 		}},
 		{Name: "data", Tags: []string{"core"}, Build: func(h *Hist, r *mon.Rand) *Call {
@@ -111,6 +116,51 @@ func basicOps() []OpDef {
 			from := h.anyWallet(r)
 			names := []string{"faucet", "miner", "storage", "vesting", "zcn", "multisig"}
 			return &Call{Name: "sc.unknown-function", Mut: "bad-fn", Spec: world.TxnSpec{From: from, To: world.SCAddresses[names[r.Intn(len(names))]], Value: Coin(r.Intn(100)), Fee: Coin(h.fee(r)), Type: transaction.TxnTypeSmartContract, Func: "no_such_function", Input: map[string]string{}}}
+		}},
+		{Name: "probe.run", Tags: []string{"core", "probe", "C04"}, Build: func(h *Hist, r *mon.Rand) *Call {
+			from := h.anyWallet(r)
+			bal, _ := h.Bal(h.Cur, world.ProbeAddress)
+			n := 1 + r.Intn(5)
+			var steps []world.ProbeStep
+			targets := []string{h.anyWallet(r).ID, h.anyWallet(r).ID, world.ProbeAddress, from.ID, world.SCAddresses["faucet"], world.SCAddresses["miner"]}
+			big := []uint64{1 << 63, 1<<63 + 40, 1<<64 - 1, 1<<64 - 7, uint64(config.MaxTokenSupply), uint64(config.MaxTokenSupply) + 1, bal, bal + 1}
+			value := uint64(0)
+			for i := 0; i < n; i++ {
+				st := world.ProbeStep{From: "sc", To: targets[r.Intn(len(targets))], Amount: 1 + r.U64()%1e9}
+				switch r.Intn(8) {
+				case 0:
+					st.Amount = big[r.Intn(len(big))]
+				case 1:
+					st.Amount = 0
+				case 2:
+					st.From = "sender"
+					value += st.Amount
+				}
+				if i > 0 && r.Chance(0.35) {
+					// the same pair again, right after the previous one (payouts are often queued per pool)
+					st.From, st.To = steps[i-1].From, steps[i-1].To
+					if st.From == "sender" {
+						value += st.Amount
+					}
+					if r.Chance(0.4) {
+						st.Amount = ^uint64(0) - steps[i-1].Amount + 1 + uint64(r.Intn(50)) // the two sum to 2^64 + small
+						if st.From == "sender" {
+							st.From = "sc"
+						}
+					}
+				}
+				steps = append(steps, st)
+			}
+			mut := ""
+			in := world.ProbeInput{Steps: steps, ThenFail: r.Chance(0.2)}
+			if in.ThenFail {
+				mut = "fail-after-transfers"
+			}
+			if r.Chance(0.1) {
+				steps[0].To = "not-a-hash"
+				mut = "bad-recipient"
+			}
+			return &Call{Name: "probe.run", Mut: mut, Spec: world.TxnSpec{From: from, To: world.ProbeAddress, Value: Coin(value), Fee: Coin(h.fee(r) % 1000), Type: transaction.TxnTypeSmartContract, Func: "run", Input: in}}
 		}},
 		{Name: "faucet.pour", Tags: []string{"faucet", "C17"}, Build: func(h *Hist, r *mon.Rand) *Call {
 			from := h.anyWallet(r)
